@@ -154,6 +154,7 @@ def user_schema():
          type Person { required name: str; nick: str; multi tags: str; required age: int64;
                        best: Person; multi friends: Person }
          type Admin extending Person { level: int64 }
+         type Chief extending Admin
          type Post { required author: Person; title: str; multi likes: Person }
        }"""
     global _USER
@@ -172,6 +173,7 @@ def user_schema():
             s = K.create_link(s, 'default::Person', 'friends', 'default::Person', multi=True)
             s = K.create_type(s, 'default::Admin', bases=('default::Person',))
             s = K.create_property(s, 'default::Admin', 'level', target='std::int64')
+            s = K.create_type(s, 'default::Chief', bases=('default::Admin',))
             s = K.create_type(s, 'default::Post')
             s = K.create_link(s, 'default::Post', 'author', 'default::Person', required=True)
             s = K.create_property(s, 'default::Post', 'title')
